@@ -92,6 +92,31 @@ class Infra(Exception):
     """infrastructure problem: exit 2, never a violation"""
 
 
+LIVE = set()      # pids (= session ids) of the children started by this process: killed when the check itself is terminated, so that no solver is left running
+
+
+def kill_all(*_):
+    for pid in list(LIVE):
+        try:
+            os.killpg(pid, 9)
+        except Exception:
+            pass
+
+
+def install_reaper():
+    import atexit, signal
+    atexit.register(kill_all)
+
+    def on_term(sig, frm):
+        kill_all()
+        os._exit(2)
+    for sg in (signal.SIGTERM, signal.SIGINT, signal.SIGHUP):
+        try:
+            signal.signal(sg, on_term)
+        except Exception:
+            pass
+
+
 def run(cmd, timeout=None, cwd=None, mem_kb=MEM_KB, stdin=None, cancel=None):
     """returns (rc | None on time-out/cancel, stdout, stderr, seconds)"""
     def lim():
@@ -102,12 +127,14 @@ def run(cmd, timeout=None, cwd=None, mem_kb=MEM_KB, stdin=None, cancel=None):
     try:
         p = subprocess.Popen(cmd, stdout=subprocess.PIPE, stderr=subprocess.PIPE, cwd=cwd, preexec_fn=lim, text=True,
                              stdin=subprocess.DEVNULL)
+        LIVE.add(p.pid)
         while True:
             try:
                 step = 0.25 if cancel is not None else timeout
                 if timeout is not None and cancel is not None:
                     step = min(0.25, max(0.01, timeout - (time.time() - t0)))
                 out, err = p.communicate(timeout=step)
+                LIVE.discard(p.pid)
                 return p.returncode, out, err, time.time() - t0
             except subprocess.TimeoutExpired:
                 expired = timeout is not None and time.time() - t0 >= timeout
@@ -117,6 +144,7 @@ def run(cmd, timeout=None, cwd=None, mem_kb=MEM_KB, stdin=None, cancel=None):
                     except Exception:
                         pass
                     p.kill(); p.communicate()
+                    LIVE.discard(p.pid)
                     return None, '', 'TIMEOUT' if expired else 'CANCELLED', time.time() - t0
     except OSError as e:
         return -1, '', str(e), time.time() - t0
